@@ -169,7 +169,7 @@ class TraitModel:
     def build(self):
         s = self.s
         stag = "%s::schema" % self.ns
-        vals = {"package": s.package, "id": int(s.id), "version": int(s.version), "semantic_version": s.sem_version or "",
+        vals = {"package": getattr(s, "xml_package", None) or s.package, "id": int(s.id), "version": int(s.version), "semantic_version": s.sem_version or "",
                 "byte_order": 1 if s.big else 0, "description": s.desc or ""}
         st = ["std::is_same<::sbepp::schema_traits<%s>::header_type_tag, %s>::value" % (stag, self.tag("types::" + s.type_by_name(s.header_name()).name)),
               "std::is_same<::sbepp::schema_traits<%s>::message_tags, ::sbepp::type_list<%s>>::value"
